@@ -135,6 +135,10 @@ def mutate(w, rnd, delta):
         a["status"]["error"] = 0
     for z in inst["zones"]:
         z["status"] = c10.rand_zone(gen, rnd, z["id"])
+    if rnd.random() < 0.5:
+        # ... and a zone was added at the console meanwhile: the refresh answer lists it first
+        used = {z["id"] for z in inst["zones"]}
+        inst["phantom_zone"] = next(i for i in (15, 14, 13, 12) if i not in used)
 
 
 def run_reconnect(case):
